@@ -52,6 +52,30 @@ def open_rewrites():
     finally:
         shutil.rmtree(d)
 
+def kwonly_validate():
+    from klepto import isvalid
+    def f(x, *, k): return 0
+    def g(x, *, k=1): return 0
+    out = []
+    try:
+        f(1); real = 'valid'
+    except TypeError:
+        real = 'TypeError'
+    out.append('isvalid(f, 1)=%s but f(1) -> %s' % (isvalid(f, 1), real))
+    out.append('isvalid(g, 1, k=2)=%s but g(1, k=2) -> %r' % (isvalid(g, 1, k=2), g(1, k=2)))
+    return out
+
+def kwonly_ignored():
+    from klepto import keygen, inf_cache
+    from klepto.keymaps import keymap
+    @keygen('**')
+    def h(x, *, y=1, **kw): return x
+    @inf_cache(keymap=keymap(), ignore='**')
+    def q(x, *, y=1, **kw): return (x, y)
+    return 'keys %r / %r ; cached q(1, y=2)=%r then q(1, y=3)=%r' % (h(1, y=2), h(1, y=3), q(1, y=2), q(1, y=3))
+
 print('A-PUB  dir_archive overwrite killed before rename -> key present, value:', overwrite_window())
 print('A-LISTREAD dir_archive.__asdict__ with a key removed after listing ->', list_then_read())
 print('A-OPEN file_archive(name, cached=False) on an existing file replaces the file (inode changed):', open_rewrites())
+print('V-FIELDS validate never consults keyword-only parameters ->', kwonly_validate())
+print('G-FIELDS ignore=\'**\' drops a non-ignored keyword-only parameter from the key ->', kwonly_ignored())
